@@ -252,6 +252,31 @@ theorem C12_display_fraction_shapes (w n d : Nat) (e : Rat) :
     repeat' split
     all_goals first | rfl | simp_all
 
+/-- The print shapes for EVERY arithmetic instance (so also for the f64 one the driver runs, NaN and
+    infinite errors included): only the test `value() == 0.0` looks at the numbers.  When it holds the
+    text is that of `0.0` in both forms; when it fails the plain form is `0` / `n/d` / `w` / `w n/d` as
+    above and the alternate form is the plain form followed by the error suffix (`errSuffix`: empty
+    unless `err.abs() > 0.001`). -/
+theorem C12_display_fraction_shapes_any_arith {α : Type} [Arith α] [FloatText α] (w n d : Nat) (e : α) :
+    (Arith.eq (Number.fraction w n d e : Number α).value (Arith.ofNat 0) = true →
+        ∀ alt, (Number.fraction w n d e : Number α).display alt = FloatText.text false (Arith.ofNat 0 : α)) ∧
+    (Arith.eq (Number.fraction w n d e : Number α).value (Arith.ofNat 0) = false →
+        (Number.fraction w n d e : Number α).display false =
+          (if w = 0 ∧ n = 0 then ['0']
+           else if w = 0 then Nat.toDigits 10 n ++ '/' :: Nat.toDigits 10 d
+           else if n = 0 then Nat.toDigits 10 w
+           else Nat.toDigits 10 w ++ ' ' :: (Nat.toDigits 10 n ++ '/' :: Nat.toDigits 10 d)) ∧
+        (Number.fraction w n d e : Number α).display true
+          = (Number.fraction w n d e : Number α).display false ++ errSuffix true e) := by
+  constructor
+  · intro h alt
+    simp only [Number.display, h, if_true]
+  · intro h
+    simp only [Number.display, h, Bool.false_eq_true, if_false, frd_render_toList, errSuffix,
+      Bool.false_and, List.append_nil, fracForm]
+    repeat' split
+    all_goals first | rfl | simp_all
+
 /-- The alternate form `{:#}` of a fraction is the plain form followed by a suffix, for every fraction:
     * no suffix when the value is zero or the recorded error is at most 0.001 in absolute value;
     * otherwise the suffix is ` (`, a signed decimal numeral, `)`, and that numeral denotes exactly the
@@ -317,6 +342,28 @@ theorem C12_display_alt_exact (t : List FracEntry) (v acc : Rat) (maxDen maxWhol
     · have hle : Rat.abs e ≤ 1 / 1000 := Rat.not_lt.1 he
       exact Or.inl ⟨h0 (Or.inr hle), hle⟩
 
+/-- The model's f64 printer (`f64Text`, the one compared with Rust's `Display for f64`), on every
+    finite non-zero f64 `x` (`b` = its bit pattern): the text is the sign followed by a plain decimal
+    numeral — digits, optionally a point and digits, no exponent — which denotes exactly `c · 10^(-s)`
+    for the digits `(c, s)` the search returned, and that decimal, read by the correctly rounded
+    decimal→f64 conversion of Basic/Decimal.lean, is `|x|` again (the printed text ROUND-TRIPS).
+    PARTIAL: the last claim has the alternative "the 17-digit search was exhausted" (`s` is then digit
+    position 18); that 17 significant digits always suffice, that the result is the SHORTEST such
+    numeral and the closest among the shortest, and that `f64Num b / f64Den b` is the value of `x`
+    (it is by construction: mantissa · 2^exponent) are not proved — the correspondence run compares the
+    texts with `format!("{}")` / `format!("{:+}")` instead. -/
+theorem C12_display_f64_roundtrip_partial (plus : Bool) (x : Float)
+    (hfin : (x.toBits.toNat / 2 ^ 52) % 2048 ≠ 2047)
+    (hnz : ¬ ((x.toBits.toNat / 2 ^ 52) % 2048 = 0 ∧ x.toBits.toNat % 2 ^ 52 = 0)) :
+    ∃ (c : Nat) (s : Int),
+      f64Text plus x = signText (decide (x.toBits.toNat / 2 ^ 63 = 1)) plus ++ decimalText c s ∧
+      readUDecimal (decimalText c s) =
+        some (if s ≤ 0 then ((c * 10 ^ (-s).toNat : Nat) : Rat) else (c : Rat) / ((10 ^ s.toNat : Nat) : Rat)) ∧
+      (bitsOfDecimal c s = UInt64.ofNat (x.toBits.toNat % 2 ^ 63) ∨
+       s = 18 - decExponent (f64Num x.toBits.toNat) (f64Den x.toBits.toNat)) := by
+  refine ⟨_, _, dsp_f64Text_finite plus x hfin hnz, dsp_read_decimalText _ _, ?_⟩
+  exact dsp_shortestFrom_roundtrip _ _ _ _ 17 1
+
 /-- `Display for Value` (every arithmetic instance): a number prints by the number rule with the
     caller's flag; a range prints `a-b` with BOTH ends by the plain number rule — the alternate flag is
     not passed on to the ends of a range (`write!(f, "{start}-{end}")`), so a range never shows error
@@ -369,6 +416,12 @@ example : (Number.fraction 0 1 4 (1 / 10000 : Rat)).display true = "1/4".toList 
 example : (Number.fraction 3 0 1 (1 / 100 : Rat)).display false = "3".toList := by decide +kernel
 /-- a fraction whose value is zero -/
 example : (Number.fraction 1 0 1 (-1 : Rat)).display true = "0".toList := by decide +kernel
+/-- the f64 instance: hypotheses of `C12_display_fraction_shapes_any_arith` on concrete numbers -/
+example : Arith.eq (Number.fraction 2 1 3 (0.003 : Float)).value (Arith.ofNat 0) = false := by decide +kernel
+/-- the hypotheses of `C12_display_f64_roundtrip_partial` (finite, non-zero) on 0.1, whose text is `0.1` -/
+example : ((0.1 : Float).toBits.toNat / 2 ^ 52) % 2048 ≠ 2047 ∧
+    ¬ (((0.1 : Float).toBits.toNat / 2 ^ 52) % 2048 = 0 ∧ (0.1 : Float).toBits.toNat % 2 ^ 52 = 0) := by decide +kernel
+example : f64Text false (0.1 : Float) = "0.1".toList := by decide +kernel
 /-- a range drops the alternate flag -/
 example : (Value.range (.fraction 2 1 3 (1 / 300 : Rat)) (.regular (7 / 2))).display true
     = "2 1/3-3.5".toList := by decide +kernel
